@@ -79,6 +79,10 @@ def _from_dict(node: dict, parent: Node = None) -> Node:
     return node
 
 
+def _escape_attribute(value) -> str:
+    return escape(str(value), {'"': "&quot;"})
+
+
 def _format_extras(name: str, nsmap: dict) -> str:
     match = re.match(r"^\{(.*)\}(.*)$", name)
     nsname = name
@@ -277,7 +281,7 @@ def to_xml(node: Node, parent: Node = None, level: int = 0, skip_ns: bool = Fals
 
     attributes = ""
     if len(node.attributes) > 0:
-        attributes += " ".join([f"{k}=\"{v}\"" for k, v in node.attributes.items()])
+        attributes += " ".join([f"{k}=\"{_escape_attribute(v)}\"" for k, v in node.attributes.items()])
 
     if not skip_ns:
         if parent is None:
@@ -289,7 +293,7 @@ def to_xml(node: Node, parent: Node = None, level: int = 0, skip_ns: bool = Fals
                 attributes += " " + " ".join([f"xmlns:{k}=\"{v}\"" for k, v in nsmap.items()])
 
     if len(node.extras) > 0:
-        attributes += " " + " ".join([f"{k}=\"{v}\"" for k, v in node.extras.items()])
+        attributes += " " + " ".join([f"{k}=\"{_escape_attribute(v)}\"" for k, v in node.extras.items()])
 
     if len(attributes) > 0:
         # Add final prefix-space to attribute string
